@@ -3,6 +3,11 @@
 import json, subprocess
 ALL=[f"C{i:02d}" for i in range(1,20)]
 CLAIMED={
+ "C11": dict(
+   text="Per procedure the full Cartesian product of boundary domains for every argument (16 handle shapes, 12 names, 11 offsets/sizes up to 2^64-1, counts with agreeing and disagreeing data lengths, cookies, limits, enum values incl. illegal ones; RENAME/LINK over all handle pairs) in two or three file-system states, and every truncation / extension / 32-bit word substitution of the XDR argument bytes of one valid request per procedure (22 NFS + 6 MOUNT) fed through the registered rpcgen handlers; every call under the controlled scheduler must return (no panic, deadlock or runaway) and a sanity script must keep succeeding.",
+   note="Replaces the property's coverage-guided fuzzing sub-clause (a sampling technique) by bounded-exhaustive mutation of the message bytes. Workers run under ulimit -v 16 GB; RPC header handling by go-rpcgen's rfc1057 server is outside go-nfsd and not exercised. Bounds: the boundary domains; one valid message per procedure.",
+   technique="bounded-exhaustive input enumeration (argument products and byte-level mutants) on the implementation under a controlled scheduler",
+   ref="DESIGN.md 4 (C11)"),
  "C19": dict(
    text="Limits are read from the server's FSINFO/PATHCONF replies; for every limit the requests at limit-1, limit, limit+1 and at the extremes (name lengths in four procedures, write counts at three offsets on two file shapes, file sizes/offsets up to 2^64-1, read sizes) are issued on a large disk: at or below the limit complete success (no short count) that reads back also after a restart; beyond it a clean error without effect or consumption; fsck; all space returns afterwards.",
    note="Trusted: reference model with the announced limits plugged in. Bounds: the boundary value sets; one scenario per value (no sequences of limit requests).",
